@@ -20,10 +20,11 @@ type outcome struct {
 	leak                                                  string   // quiescence: connections still open long after the last subscription ended
 	stats                                                 client.Stats
 	aidExpired                                            []string
-	sentWhileBlocked, cancelWhileBlocked, subWhileBlocked int  // steps executed while a blocked handler held the connection's reader
-	abandoned                                             int  // dials abandoned by their dialler through "abandon" steps
-	idleWaited                                            bool // waited out a pending idle timer on a reused connection with live subscriptions
-	joinedDial                                            int  // subscriptions started while an un-acked connection of their tuple existed (probable dial joiners)
+	sentWhileBlocked, cancelWhileBlocked, subWhileBlocked int         // steps executed while a blocked handler held the connection's reader
+	abandonedOn                                           map[int]int // abandoned dials per tuple
+	abandoned                                             int         // dials abandoned by their dialler through "abandon" steps
+	idleWaited                                            bool        // waited out a pending idle timer on a reused connection with live subscriptions
+	joinedDial                                            int         // subscriptions started while an un-acked connection of their tuple existed (probable dial joiners)
 }
 
 // established is set once this process has reported a time-based violation (liveness or quiescence)
@@ -164,7 +165,7 @@ func run(c Case) *outcome {
 		cc.pingTimeout = time.Duration(c.Ping.TimeoutMs) * time.Millisecond
 	}
 	w := newWorld(c, cc)
-	o := &outcome{w: w}
+	o := &outcome{w: w, abandonedOn: map[int]int{}}
 	defer w.close()
 	if c.stepped() {
 		for _, s := range c.Steps {
@@ -265,7 +266,9 @@ func (o *outcome) step(s Step) bool {
 		w.mu.Unlock()
 		if !cancelled && wrote && !stalled {
 			if !o.expect(fmt.Sprintf("sub %d receives message #%d (%s) the upstream sent for it", i, pos, m.Kind), func() bool {
-				return st.terminalAt() >= 0 || len(st.msgs) > pos || st.cancelIssued
+				// readerBlocked: a handler on its connection blocked in the meantime (possibly its own, on an earlier
+				// message that had not been delivered yet): delivery stands still by contract, nothing is owed now
+				return st.terminalAt() >= 0 || len(st.msgs) > pos || st.cancelIssued || w.readerBlocked(i)
 			}) {
 				return false
 			}
@@ -302,6 +305,7 @@ func (o *outcome) step(s Step) bool {
 	case "release":
 		i := s.Sub
 		w.releaseHandler(i)
+		o.aid("handler-resumed", func() bool { return !w.subs[i].blockedNow })
 		o.settleDeliveries(i)
 	case "abandon":
 		return o.abandon(s.Key, s.Sub)
@@ -376,6 +380,7 @@ func (o *outcome) step(s Step) bool {
 		for i := range w.subs {
 			if c.Subs[i].Tuple == k && c.Subs[i].On != nil && c.Subs[i].On.Act == "block" {
 				w.releaseHandler(i)
+				o.aid("handler-resumed", func() bool { return !w.subs[i].blockedNow })
 				o.settleDeliveries(i)
 			}
 		}
@@ -561,6 +566,14 @@ func (o *outcome) finish() {
 	for i := range w.subs {
 		w.releaseHandler(i)
 	}
+	w.wait(watch, 0, func() bool {
+		for _, st := range w.subs {
+			if st.blockedNow {
+				return false
+			}
+		}
+		return true
+	})
 	if len(o.liveness) == 0 && len(o.inconclusive) == 0 {
 		for k := range c.Tuples {
 			w.openGate(k)
@@ -722,6 +735,11 @@ func (o *outcome) settleDeliveries(i int) {
 			}
 		}
 		for _, j := range ids {
+			if w.subs[j].blockedNow {
+				return true // the reader stands still again, in another handler: nothing more arrives for now
+			}
+		}
+		for _, j := range ids {
 			sj := w.subs[j]
 			if sj.cancelIssued || sj.terminalAt() >= 0 || sj.blockedNow || (sj.conn != nil && (sj.conn.closed || sj.conn.dropped)) {
 				continue
@@ -758,7 +776,14 @@ func (o *outcome) abandon(k, keep int) bool {
 	// Most recently started first: when a dial is abandoned, closing its done channel readies the waiters in
 	// queue order and the scheduler runs the last one readied first, so the youngest waiter usually wins the
 	// race for the next dial. Any order is sound; this one wastes the fewest expendable callers.
-	sort.Slice(cands, func(a, b int) bool { return cands[a].startSeq > cands[b].startSeq })
+	// The very first dial of a tuple belongs to the caller that started first.
+	first := o.abandonedOn[k] == 0
+	sort.Slice(cands, func(a, b int) bool {
+		if first {
+			return cands[a].startSeq < cands[b].startSeq
+		}
+		return cands[a].startSeq > cands[b].startSeq
+	})
 	n0 := w.initCount(k)
 	gateOpen := w.gateOpen[k]
 	w.mu.Unlock()
@@ -789,6 +814,7 @@ func (o *outcome) abandon(k, keep int) bool {
 		return true
 	}
 	o.abandoned++
+	o.abandonedOn[k]++
 	w.mu.Lock()
 	for i, st := range w.subs {
 		if c.Subs[i].Tuple == k && st.started && !st.cancelIssued && st.startSeq > 0 && (!st.returned || st.err != nil) {
